@@ -150,3 +150,22 @@ Print Assumptions C11_flatten_gen_constructed.
 Print Assumptions C11_equations_gen_eq_model.
 Print Assumptions C11_flatten_gen_no_and.
 Print Assumptions C11_flatten_gen_no_or.
+
+(* ------------------------------------------------------------------------------------------------------------
+   Extension: signed immediates (frame_dig / frame_bury with negative offsets, Lemmas/SignedLemmas.v): the operand
+   reconstruction is defined on the signed form and does not depend on the offset *)
+From Coq Require Import String List NArith ZArith.
+From Tealer Require Import Syntax Cfg StackAst SignedLemmas.
+
+Theorem C11_emulate_frame_dig : forall z pos st,
+  emulate_ins (frame_dig z) pos st = Some (nil, SKnown (frame_dig z) pos nil 0 :: st).
+Proof. exact emulate_frame_dig. Qed.
+Theorem C11_emulate_frame_bury : forall z pos v st,
+  emulate_ins (frame_bury z) pos (v :: st) = Some (v :: nil, SKnown (frame_bury z) pos (v :: nil) 0 :: st).
+Proof. exact emulate_frame_bury. Qed.
+Theorem C11_emulate_frame_bury_empty : forall z pos,
+  emulate_ins (frame_bury z) pos nil = Some (SUnknown :: nil, SKnown (frame_bury z) pos (SUnknown :: nil) 0 :: nil).
+Proof. exact emulate_frame_bury_empty. Qed.
+
+Print Assumptions C11_emulate_frame_dig.
+Print Assumptions C11_emulate_frame_bury.
